@@ -135,7 +135,7 @@ impl<'a> Cur<'a> {
             b"TextFont" => Op::TextFont { name: self.name()?, size: self.fl()? },
             b"TextRenderMode" => Op::TextRenderMode { mode: match self.int()? {
                 0 => TextMode::Fill, 1 => TextMode::Stroke, 2 => TextMode::FillThenStroke, 3 => TextMode::Invisible,
-                4 => TextMode::FillAndClip, 5 => TextMode::StrokeAndClip, _ => return Err("canon: text mode".into()) } },
+                4 => TextMode::FillAndClip, 5 => TextMode::StrokeAndClip, 6 => TextMode::FillThenStrokeAndClip, 7 => TextMode::Clip, _ => return Err("canon: text mode".into()) } },
             b"TextRise" => Op::TextRise { rise: self.fl()? },
             b"MoveTextPosition" => Op::MoveTextPosition { translation: self.point()? },
             b"SetTextMatrix" => Op::SetTextMatrix { matrix: self.matrix()? },
@@ -304,7 +304,8 @@ pub fn dispatch(mode: &str, f: &[Vec<u8>]) -> Option<R> {
             Err(_) => return None,
         },
         // content stream bytes -> canonical operation list
-        "ops_parse" => parse_ops(fld(f, 0), &NoResolve).map(|ops| encode_ops(&ops)).map_err(|e| ekind(&e)),
+        // ops_parse_bytes: the same call; the model of this mode reads the bytes itself (Content/Bytes.v)
+        "ops_parse" | "ops_parse_bytes" => parse_ops(fld(f, 0), &NoResolve).map(|ops| encode_ops(&ops)).map_err(|e| ekind(&e)),
         // canonical operation list -> serialize_ops -> parse_ops -> canonical operation list
         "ops_roundtrip" => match decode_ops(f) {
             Ok(ops) => serialize_ops(&ops).and_then(|v| parse_ops(&v, &NoResolve)).map(|ops| encode_ops(&ops)).map_err(|e| ekind(&e)),
